@@ -105,7 +105,7 @@ fn run<T: Fl>(c: &Case, lx: &mut Local) {
                         } else {
                             let e = err_of(m, &exact[p]);
                             lx.ratio(&format!("central_moment_order_{}", p), e / bounds[p].max(f64::MIN_POSITIVE));
-                            lx.check(e <= bounds[p], "C07/central-moment", || format!("[{}] central_moments(8)[{}] of {:?} = {:e}, exact {:e}, error {:e} > bound {:e}", T::NAME, p, xs, m, exact[p].to_f64(), e, bounds[p]));
+                            lx.within(e, bounds[p], "C07/central-moment", || format!("[{}] central_moments(8)[{}] of {:?} = {:e}, exact {:e}, error {:e} > bound {:e}", T::NAME, p, xs, m, exact[p].to_f64(), e, bounds[p]));
                         }
                         obs.push(m.to_bits());
                     }
@@ -122,7 +122,7 @@ fn run<T: Fl>(c: &Case, lx: &mut Local) {
                             lx.check(m == 0.0, "C07/order-1-not-zero", || format!("[{}] central_moment(1) = {:?} on {:?}", T::NAME, m, xs));
                         } else {
                             let e = err_of(m, &exact[p as usize]);
-                            lx.check(e <= bounds[p as usize], "C07/central-moment", || format!("[{}] central_moment({}) of {:?} (stride {}) = {:e}, exact {:e}, error {:e} > bound {:e}", T::NAME, p, xs, st, m, exact[p as usize].to_f64(), e, bounds[p as usize]));
+                            lx.within(e, bounds[p as usize], "C07/central-moment", || format!("[{}] central_moment({}) of {:?} (stride {}) = {:e}, exact {:e}, error {:e} > bound {:e}", T::NAME, p, xs, st, m, exact[p as usize].to_f64(), e, bounds[p as usize]));
                         }
                     }
                     other => lx.fail("C07/central-moment-failed", || format!("[{}] central_moment({}) on {:?}: {:?}", T::NAME, p, xs, other.map(|r| r.map(|x| x.to_f64_())))),
@@ -189,7 +189,7 @@ fn run<T: Fl>(c: &Case, lx: &mut Local) {
                         let g = g.to_f64_();
                         let e = err_of(g, &want);
                         lx.ratio("weighted_var", e / b.max(f64::MIN_POSITIVE));
-                        lx.check(e <= b, "C07/weighted-var", || format!("[{}] weighted_var of {:?} weights {:?} ddof {} = {:e}, exact {:e}, error {:e} > bound {:e}", T::NAME, xs, ws, ddof, g, want.to_f64(), e, b));
+                        lx.within(e, b, "C07/weighted-var", || format!("[{}] weighted_var of {:?} weights {:?} ddof {} = {:e}, exact {:e}, error {:e} > bound {:e}", T::NAME, xs, ws, ddof, g, want.to_f64(), e, b));
                         if !denom.is_negative() {
                             lx.check(g >= -b, "C07/variance-negative", || format!("[{}] weighted_var of {:?} weights {:?} ddof {} = {:e} < -bound {:e}", T::NAME, xs, ws, ddof, g, b));
                         }
@@ -261,13 +261,13 @@ fn run_nd<T: Fl>(c: &NCase, lx: &mut Local) {
                     let b = var_bound::<T>(&parts, ll, ddof);
                     let e = err_of(fv[j].to_f64_(), &want);
                     lx.ratio("weighted_var_axis", e / b.max(f64::MIN_POSITIVE));
-                    lx.check(e <= b, "C07/weighted-var-axis", || format!("[{}] weighted_var_axis lane {} = {:?}, exact {:e}, error {:e} > bound {:e}; lane {:?} weights {:?} ddof {}; {:?}", T::NAME, j, fv[j], want.to_f64(), e, b, lv, ws, ddof, c));
+                    lx.within(e, b, "C07/weighted-var-axis", || format!("[{}] weighted_var_axis lane {} = {:?}, exact {:e}, error {:e} > bound {:e}; lane {:?} weights {:?} ddof {}; {:?}", T::NAME, j, fv[j], want.to_f64(), e, b, lv, ws, ddof, c));
                     lx.check(check_std_interval(&want, b, fs[j].to_f64_(), u), "C07/weighted-std-axis", || format!("[{}] weighted_std_axis lane {} = {:?}, exact variance {:e}; {:?}", T::NAME, j, fs[j], want.to_f64(), c));
                     // whole-array routine on that lane
                     let la = Array1::from(lv.clone());
                     let wa = Array1::from(ws.clone());
                     if let Ok(v1) = la.weighted_var(&wa, T::of(ddof)) {
-                        lx.check((v1.to_f64_() - fv[j].to_f64_()).abs() <= 2.0 * b, "C07/axis-vs-whole-array", || format!("[{}] weighted_var_axis lane {} = {:?} but weighted_var of the lane = {:?}", T::NAME, j, fv[j], v1));
+                        lx.within((v1.to_f64_() - fv[j].to_f64_()).abs(), 2.0 * b, "C07/axis-vs-whole-array", || format!("[{}] weighted_var_axis lane {} = {:?} but weighted_var of the lane = {:?}", T::NAME, j, fv[j], v1));
                     }
                     obs.push(fv[j].bits_());
                 }
@@ -281,7 +281,7 @@ fn run_nd<T: Fl>(c: &NCase, lx: &mut Local) {
                 let want = fl::central_moment(&dr, p as u32);
                 let b = moment_bound::<T>(&dr, p as u32);
                 let e = err_of(m.to_f64_(), &want);
-                lx.check(e <= b, "C07/central-moment-nd", || format!("[{}] n-D central_moment({}) = {:?}, exact {:e}, error {:e} > bound {:e}: {:?}", T::NAME, p, m, want.to_f64(), e, b, c));
+                lx.within(e, b, "C07/central-moment-nd", || format!("[{}] n-D central_moment({}) = {:?}, exact {:e}, error {:e} > bound {:e}: {:?}", T::NAME, p, m, want.to_f64(), e, b, c));
             } else {
                 lx.fail("C07/central-moment-failed", || format!("n-D central_moment({}) failed on {:?}", p, c));
             }
@@ -350,7 +350,7 @@ fn run_sweep<T: Fl>(c: &SCase, lx: &mut Local) {
                     for p in 2..=4usize {
                         if p < ms.len() {
                             let e = err_of(ms[p].to_f64_(), &exact[p]);
-                            lx.check(e <= bounds[p], "C07/central-moment-long", || format!("[{}] central_moments(4)[{}] of {} elements (fill {}) = {:?}, exact {:e}, error {:e} > bound {:e}", T::NAME, p, n, c.fill, ms[p], exact[p].to_f64(), e, bounds[p]));
+                            lx.within(e, bounds[p], "C07/central-moment-long", || format!("[{}] central_moments(4)[{}] of {} elements (fill {}) = {:?}, exact {:e}, error {:e} > bound {:e}", T::NAME, p, n, c.fill, ms[p], exact[p].to_f64(), e, bounds[p]));
                             obs.push(ms[p].bits_());
                         }
                     }
@@ -398,7 +398,7 @@ fn run_sweep<T: Fl>(c: &SCase, lx: &mut Local) {
                     Ok(Ok(g)) => {
                         let e = err_of(g.to_f64_(), &want);
                         lx.ratio("weighted_var_long", e / b.max(f64::MIN_POSITIVE));
-                        lx.check(e <= b, "C07/weighted-var-long", || format!("[{}] weighted_var of {} elements (fill {}, ddof {}) = {:?}, exact {:e}, error {:e} > bound {:e}", T::NAME, n, c.fill, ddof, g, want.to_f64(), e, b));
+                        lx.within(e, b, "C07/weighted-var-long", || format!("[{}] weighted_var of {} elements (fill {}, ddof {}) = {:?}, exact {:e}, error {:e} > bound {:e}", T::NAME, n, c.fill, ddof, g, want.to_f64(), e, b));
                         obs.push(g.bits_());
                     }
                     other => lx.fail("C07/weighted-var-failed", || format!("weighted_var of {} elements: {:?}", n, other.map(|r| r.map(|x| x.to_f64_())))),
@@ -417,7 +417,7 @@ fn run_sweep<T: Fl>(c: &SCase, lx: &mut Local) {
                             let want = &parts.s / &parts.w_total;
                             let b = var_bound::<T>(&parts, n, 0.0);
                             let e = err_of(g.to_f64_(), &want);
-                            lx.check(e <= b, "C07/weighted-var-axis-long", || format!("[{}] weighted_var_axis over a lane of {} elements (lane {}) = {:?}, exact {:e}, error {:e} > bound {:e}", T::NAME, n, j, g, want.to_f64(), e, b));
+                            lx.within(e, b, "C07/weighted-var-axis-long", || format!("[{}] weighted_var_axis over a lane of {} elements (lane {}) = {:?}, exact {:e}, error {:e} > bound {:e}", T::NAME, n, j, g, want.to_f64(), e, b));
                         }
                     }
                     other => lx.fail("C07/axis-failed", || format!("weighted_var_axis on (2,{}): {:?}", n, other.map(|r| r.map(|_| ())))),
